@@ -153,6 +153,7 @@ func TestC19(t *testing.T) {
 		r.Case(fmt.Sprintf("%s/size%d/%d", gg.Name, gg.Size, gg.Var), gg, func(c *mon.Case) {
 			rnd := rand.New(rand.NewSource(int64(c.Seed)))
 			st := store.New()
+			st.IgnoreCtx = true // the testutil API takes no context
 			ls := st.LinkSystem(false)
 			ls.NodeReifier = unixfsnode.Reify
 			tt := c.Run().T
@@ -177,7 +178,8 @@ func TestC19(t *testing.T) {
 					de, err = testutil.UnixFSDirectory(*ls, gg.Size, testutil.WithRandReader(rnd))
 				case "UnixFSDirectory-dirname":
 					pathRule = true
-					de, err = testutil.UnixFSDirectory(*ls, gg.Size, testutil.WithRandReader(rnd), testutil.WithDirname("/top/dir"), testutil.WithChunker("size-500"))
+					dn := []string{"/top/dir", "/release-1.2", "/example.org/pub", "/v1.0", "/a.b/c.d/e"}[(gg.Var+gg.Size)%5]
+					de, err = testutil.UnixFSDirectory(*ls, gg.Size, testutil.WithRandReader(rnd), testutil.WithDirname(dn), testutil.WithChunker("size-500"))
 				case "UnixFSDirectory-sharded":
 					pathRule = true
 					sharded = true
@@ -214,7 +216,7 @@ func TestC19(t *testing.T) {
 					}
 				case "GenerateDirectoryFrom":
 					pathRule = true
-					dir := []string{"sub", "sub/deeper", "/sub/", "./sub", "/a/b/c", "with space/x", "/"}[(gg.Var+gg.Size)%7]
+					dir := []string{"sub", "sub/deeper", "/sub/", "./sub", "/a/b/c", "with space/x", "/", "/v1.0", "/example.org/pub"}[(gg.Var+gg.Size)%9]
 					okRun := tt.Run(c.ID, func(t *testing.T) { de = testutil.GenerateDirectoryFrom(t, ls, rnd, gg.Size, dir, gg.Var%2 == 1) })
 					if !okRun {
 						err = fmt.Errorf("GenerateDirectoryFrom failed its own requirements")
@@ -240,6 +242,14 @@ func TestC19(t *testing.T) {
 						}
 						sub := testutil.GenerateDirectoryFrom(t, ls, rnd, 3000, "/sub", false)
 						children = append(children, sub)
+						if gg.Var%3 == 2 {
+							// names that path cleaning would swallow are names all the same
+							for _, odd := range []string{"/.", "/..", "/...", "/.hidden"} {
+								f := testutil.GenerateFile(t, ls, rnd, 40)
+								f.Path = odd
+								children = append(children, f)
+							}
+						}
 						de = testutil.BuildDirectory(t, ls, children, sharded)
 					})
 					if !okRun {
@@ -272,6 +282,7 @@ func TestC19(t *testing.T) {
 			if strings.HasPrefix(gg.Name, "UnixFS") && gg.Name != "UnixFSDirectory-custom" && st.Commits > 0 {
 				for _, k := range []int{1, 1 + st.Commits/2, st.Commits} {
 					fst := store.New()
+					fst.IgnoreCtx = true
 					fst.FailCommitAt = k
 					fls := fst.LinkSystem(false)
 					frnd := rand.New(rand.NewSource(int64(c.Seed)))
